@@ -12,6 +12,10 @@ those tables, lifted by the soundness lemmas of Proofs/TechChk.lean to the for-a
 for the tables, i.e. for the library objects and op programs the imported package produced; that the LUT
 semantics of an op row is what the simulator's code paths execute is C01 (`real_code_paths` restates it for
 these programs).  **Oracle** (harness/c19.py): the same comparison on the real `LogicSim` truth tables.
+**Composition with C10** (Props/C10Datasheet.lean `resolve_datasheet_sem`, glue Proofs/ImplDatasheet2.lean
+`implMatches_iff_datasheet`): `family_function` is about the op rows in the tables; for an implementation NETLIST that a row
+describes (`Transform.describesB`, evaluated by the driver for every key of the five libraries: all 656 listed-family keys
+pass) the relational meaning C10 gives a resolved instance is therefore the datasheet function of the values on its pins.
 
 This file: pins and partition.  Props/C19Gates.lean: `family_function_except_adders`.  Props/C19Fun.lean: the full
 statement `family_function` (adders included).  Separate modules, so that a defect in the function of one family
